@@ -528,7 +528,9 @@ func (c *Context) Sqrt(d, x *Decimal) (Condition, error) {
 	nd := x.NumDigits()
 	e := nd + int64(x.Exponent)
 	f.Exponent = int32(-nd)
-	nc := c.WithPrecision(workp)
+	// The iteration works on f in [0.01, 1): its steps are not results of the
+	// operation and are not subject to the caller's exponent range and traps.
+	nc := BaseContext.WithPrecision(workp)
 	nc.Rounding = RoundHalfEven
 	ed := MakeErrDecimal(nc)
 	// Set approx to the first guess, based on whether e (the exponent part of x)
@@ -644,13 +646,14 @@ func (c *Context) Sqrt(d, x *Decimal) (Condition, error) {
 
 	d.Set(&approx)
 	d.Exponent += int32(e / 2)
-	nc.Precision = c.Precision
-	nc.Rounding = RoundHalfEven
-	res := nc.round(d, d)
+	// The result is rounded to the caller's context.
+	fc := c.WithPrecision(c.Precision)
+	fc.Rounding = RoundHalfEven
+	res := fc.round(d, d)
 	if inexact {
 		res |= Inexact | Rounded
 	}
-	return nc.goError(res)
+	return c.goError(res)
 }
 
 // Cbrt sets d to the cube root of x.
@@ -894,7 +897,9 @@ func (c *Context) Ln(d, x *Decimal) (Condition, error) {
 	// series/iterations add up.
 	p := c.Precision + 2
 
-	nc := c.WithPrecision(p)
+	// The intermediate values are not results of the operation: they are not
+	// subject to the caller's exponent range and traps.
+	nc := BaseContext.WithPrecision(p)
 	nc.Rounding = RoundHalfEven
 	ed := MakeErrDecimal(nc)
 
@@ -1153,7 +1158,9 @@ func (c *Context) Exp(d, x *Decimal) (Condition, error) {
 	var r Decimal
 	r.Set(x)
 	r.Exponent -= t
-	nc := c.WithPrecision(cp)
+	// The intermediate values are not results of the operation: they are not
+	// subject to the caller's exponent range and traps.
+	nc := BaseContext.WithPrecision(cp)
 	nc.Rounding = RoundHalfEven
 	var ra Decimal
 	ra.Abs(&r)
@@ -1201,8 +1208,10 @@ func (c *Context) Exp(d, x *Decimal) (Condition, error) {
 		return 0, fmt.Errorf("integer power: %w", err)
 	}
 	res |= ires
-	nc.Precision = c.Precision
-	res |= nc.round(d, d)
+	// The result is rounded to the caller's context.
+	fc := c.WithPrecision(c.Precision)
+	fc.Rounding = RoundHalfEven
+	res |= fc.round(d, d)
 	return c.goError(res)
 }
 
